@@ -87,7 +87,7 @@ class Oracle:
         fails = []
         changed = any(prev[t] != snap[t] for t in ('descriptors', 'states', 'context_states'))
         dv = snap['version'] - prev['version']
-        if outcome in ('aborted', 'rejected', 'empty'):
+        if outcome in ('aborted', 'rejected', 'empty', 'commit-failed'):
             if dv != 0:
                 fails.append(('mdib-version-changed-without-commit', f'{outcome} transaction: MdibVersion {prev["version"]} -> {snap["version"]}'))
             if changed:
